@@ -50,6 +50,8 @@ public:
         {
             _settings._dim.y = _info._height;
         }
+
+        detail::check_read_region( _settings, _info._width, _info._height );
     }
 
     void read_header()
